@@ -18,7 +18,7 @@ import itertools
 
 import numpy as np
 
-from tjverif import gen, monitors as M, oracle
+from tjverif import gen, mcmc, monitors as M, oracle
 
 
 def run(ctx):
@@ -113,6 +113,25 @@ def run(ctx):
                     ctx.violation(key, "marginal_ln_likelihood of list/dict data is not that of the correctly labelled "
                                   "union under any assignment of surveys to offsets (e.g. row %s: %.10g vs %.10g, tol %.2g)"
                                   % (worst if worst else ("?", 0, 0, 0)), dict(desc, dspec=dspec, ps=ps))
+            # ---- "posteriors are those of the correctly labelled data": the model setup_mcmc assembles for the same
+            # surveys (chronological lists only: the known label defect must stay out of this monitor)
+            if dspec["form"] == "list" and chrono and ns <= 4 and i % 4 == 0:
+                joker = TheJoker(prior, rng=np.random.default_rng([ctx.seed, i]))
+                post = joker.rejection_sample(data, samples, in_memory=True, max_posterior_samples=1)
+                with prior.model:
+                    joker.setup_mcmc(data, post)
+                f, vnames = mcmc.compile_model_rv(prior.model)
+                dev = mcmc.model_rv_deviation(f, vnames, ps, du, lins[assignments[0]], ns - 1, rng)
+                if dev is None:
+                    ctx.count("mcmc_slices_unmapped")
+                else:
+                    ctx.evaluations += 1
+                    ctx.count("mcmc_models_checked")
+                    ctx.distinct.add(repr(("mcmc-model",) + cls))
+                    if dev > 1e-7:
+                        ctx.violation("mcmc-model-of-mislabelled-data", "the model built by setup_mcmc gives survey epochs another "
+                                      "offset/trend than the correctly labelled union (relative deviation %.3g; poly_trend=%d, "
+                                      "%d surveys)" % (dev, poly, ns), dict(desc, dspec=dspec, ps=ps))
             if i % 60 == 0:
                 ctx.sample(dict(desc, ll_head=ll[:3]))
         except Exception as e:
